@@ -33,6 +33,7 @@ def handlers : List (String × Handler) :=
   |>.cons ("c03glyphs", C03.handle)
   |>.cons ("c04e2e", C04.handle)
   |>.cons ("c04adv", C04.handle)
+  |>.cons ("c03adv", C03.handle)
   |>.cons ("c14names", C14.handleNames)
   |>.cons ("c14paths", C14.handlePaths)
   |>.cons ("c14emit", C14.handleEmit)
